@@ -46,7 +46,11 @@ def handle (inp out : List String) : String :=
     | some a, some b, some s =>
       let n := numEbn0s a b s
       -- output: <number of data lines> <all identities hold 0|1>
-      verdict [toString n, "1"] out (if out.getD 1 "" == "0" then some "ber-result-lines-violate-the-statistics-identities" else none)
+      verdict [toString n, "1"] out
+        (if out.getD 1 "" == "0" then some "ber-result-lines-violate-the-statistics-identities"
+         else if out.getD 0 "" ≠ toString n then
+           some s!"ber-result-file-has-{out.getD 0 "?"}-lines-for-{n}-requested-ebn0-values (Cli.numEbn0s: floor((max-min)/step)+1)"
+         else none)
     | _, _, _ => "BADLINE c20 ber"
   | ["berx", _name] =>
     -- two requested Eb/N0 values (numEbn0s 200 300 100 = 2); output: <number of data lines> <all identities and detail lines hold 0|1>
